@@ -9,6 +9,13 @@ import ring
 
 BASE = np.datetime64("2019-12-31T23:57:00")      # ticks of one minute across a year boundary
 TICK = np.timedelta64(60, "s")
+TICK_S = 60
+
+
+def set_tick(seconds):
+    """Length of one abstract time tick (default one minute; one second makes fractional thresholds matter)."""
+    global TICK, TICK_S
+    TICK, TICK_S = np.timedelta64(int(seconds), "s"), int(seconds)
 
 
 def times_of(points):
@@ -51,8 +58,12 @@ def dataset(points, emb, shape="linear", ids=None, extra=None):
 def interval_arg(I, spelling):
     if I < 0:
         return None
-    secs = I * 60
-    return [secs, "%d s" % secs, "%d minutes" % I, dt.timedelta(minutes=I), float(secs)][spelling % 5]
+    secs = I * TICK_S
+    # the last three lie half / a quarter of a second BELOW the tick multiple: for whole-second data they select the same
+    # pairs (|dt| < secs  <=>  |dt| < secs - 0.5) - as a number and as a string alike
+    frac = [secs - 0.5, "%r s" % (secs - 0.5), np.float64(secs - 0.25)] if secs >= 1 else [secs, "%d s" % secs, float(secs)]
+    return ([secs, "%d s" % secs, "%d minutes" % I if TICK_S == 60 else "%d seconds" % secs, dt.timedelta(seconds=secs), float(secs)]
+            + frac)[spelling % 8]
 
 
 def distance_arg(k, N, spelling):
@@ -65,7 +76,7 @@ def window_arg(ws, we):
     return to(ws), to(we)
 
 
-def project(res, N, metric="minkowski", pname="primary", sname="secondary", tick_s=60):
+def project(res, N, metric="minkowski", pname="primary", sname="secondary", tick_s=None):
     """-> dict(none, pairs [[pid, sid]..], dt [ticks], cls [class])"""
     if res is None:
         return {"none": True, "pairs": [], "dt": [], "cls": []}
@@ -75,6 +86,7 @@ def project(res, N, metric="minkowski", pname="primary", sname="secondary", tick
     iv = res["Collocations/interval"].values
     secs = iv.astype("timedelta64[s]").astype(int) if np.issubdtype(iv.dtype, np.timedelta64) else np.asarray(iv, dtype=float)
     dist = res["Collocations/distance"].values
+    tick_s = TICK_S if tick_s is None else tick_s
     dts = []
     for s in secs:
         q, r = divmod(float(s), tick_s)
